@@ -122,12 +122,16 @@ class Ctx:
 
 
 # ------------------------------------------------------------------ the proved tie (translator) and its falsifier
-EXT_PIDS = {"C01", "C04", "C05", "C06", "C07", "C08", "C09"}
+EXT_PIDS = {"C01", "C04", "C05", "C06", "C07", "C08", "C09", "C12", "C13", "C15"}
 TOOLPY = "/opt/veriftools/pyvenv/bin/python"
 
 def ext_case(r):
     """operation script that replays a srcdiff counterexample on the real crates and on the model"""
     g, fn, rp = r["unit"], r["fn"], r["replay"]
+    if rp["kind"] == "stir":
+        return ["timer 0 1", "jit 1 0", f"setpool 1 {rp['hex']}", "stir 1", "pool 1"]
+    if rp["kind"] == "lfsr":
+        return [f"timer 0 {rp['time']},{rp['time']}", "jit 1 0", f"setpool 1 {rp['hex']}", "stats 1 0", "pool 1"]
     nat = "u32" if common.GENS.get(g, {}).get("w") == 32 else "u64"
     if rp["kind"] == "seed":
         return [f"new 0 {g} seed {rp['hex']}", "ser 0", f"{nat} 0", "ser 0"]
